@@ -80,6 +80,15 @@ impl Prop for SortP {
             }
         }
         v.push("empty".into());
+        // long key lines: std's unstable sort is an insertion sort (hence accidentally stable) up to 20
+        // elements, so instability can only be observed beyond that length
+        for k in [21usize, 24, 33] {
+            for o in [1usize, 2] {
+                let (c, r) = if self.by_row { (k, o) } else { (o, k) };
+                v.push(format!("{} wide", Recv::owned(c, r).enc()));
+                v.push(format!("{} wide", Recv::window(c + 2, r + 2, (1, 1), (1 + c, 1 + r)).enc()));
+            }
+        }
         v
     }
     fn run_unit(&self, unit: &str, ctx: &mut Ctx) {
@@ -89,14 +98,18 @@ impl Prop for SortP {
         }
         let (r, part) = unit.rsplit_once(' ').unwrap();
         let rd = Recv::parse(r);
+        if part == "wide" {
+            self.run_recv(&rd, None, true, ctx);
+            return;
+        }
         let first: Option<u8> = part.parse().ok();
-        self.run_recv(&rd, first, ctx);
+        self.run_recv(&rd, first, false, ctx);
     }
     fn rule(&self) -> String {
         let (line, whole, idx) = if self.by_row { ("row", "columns", "row") } else { ("column", "rows", "column") };
         format!(
             "cells are (key, unique tag) pairs whose Ord/Eq look at the key only; for every shape in the bound the key {line} ranges over ALL of {{0..k-1}}^k (every tie pattern and every permutation, hence every input of the permutation-to-swaps routine), every {idx} index 0..=dim (dim itself is out of range), every entry point of the family \
-             ({variants}), on owned arrays, interior and edge windows of a larger parent, and a third-party implementor using the trait defaults. \
+             ({variants}); additionally key lines of length 21, 24 and 33 from an enumerated tie-rich family k[i] = (i*a+b) mod m (std's unstable sort is an insertion sort, hence accidentally stable, up to 20 elements), on owned arrays, interior and edge windows of a larger parent, and a third-party implementor using the trait defaults. \
              Oracle: the key {line} is ordered by the comparison / key function; the multiset of whole {whole} (as tag vectors) is preserved, i.e. every original {whole_s} appears intact exactly once; the stable variants equal the model's stable sort exactly; the parent outside a window is unchanged; an out-of-range index panics and changes nothing. \
              A case is (receiver, key line, index, entry point); non-trivial = in-range index; distinct by the tuple.",
             line = line,
@@ -142,12 +155,28 @@ impl SortP {
         }
     }
 
-    fn run_recv(&self, rd: &Recv, first: Option<u8>, ctx: &mut Ctx) {
+    fn run_recv(&self, rd: &Recv, first: Option<u8>, wide: bool, ctx: &mut Ctx) {
         let rd = *rd;
         let (c, r) = rd.size();
         let rect = rd.rect();
         let (k, dim_idx) = if self.by_row { (c, r) } else { (r, c) };
-        let lines: Vec<Vec<u8>> = key_lines(k).into_iter().filter(|l| first.map_or(true, |f| l[0] == f)).collect();
+        let lines: Vec<Vec<u8>> = if wide {
+            // an enumerated family of tie-rich key lines: k[i] = (i*a + b) mod m, plus descending and constant lines
+            let mut v: Vec<Vec<u8>> = Vec::new();
+            for a in [1usize, 3, 5, 7] {
+                for b in [0usize, 1] {
+                    for m in [2usize, 3, 4] {
+                        v.push((0..k).map(|i| ((i * a + b) % m) as u8).collect());
+                    }
+                }
+            }
+            v.push((0..k).map(|i| (k - i) as u8).collect());
+            v.push(vec![3; k]);
+            v.push((0..k).map(|i| ((k - i) / 3) as u8).collect());
+            v
+        } else {
+            key_lines(k).into_iter().filter(|l| first.map_or(true, |f| l[0] == f)).collect()
+        };
         for line in &lines {
             for idx in 0..=dim_idx {
                 for var in self.variants() {
